@@ -2,5 +2,6 @@ SPECIFICATION TSpec
 CONSTANTS
   Strs <- TrStrs
   Cls <- TrCls
+  Diagnose = FALSE
 POSTCONDITION Accepted
 CHECK_DEADLOCK FALSE
